@@ -214,7 +214,7 @@ class SubsetHooks(Hooks):
             self.hstack.append(args[0])
             a = args[0]
             if isinstance(a, list) and len(a) == 3 and all(isinstance(x, Arr) for x in a):
-                return Arr(('h',), mk_fn('HSTACK', P(a[0].poly), B(a[1].dims[0] if a[1].dims else None, a[1].poly), P(a[2].poly)), unit=num(1))
+                return Arr(('h',), mk_fn('HSTACK', alg.L('h'), P(a[0].poly), B(a[1].dims[0] if a[1].dims else None, a[1].poly), P(a[2].poly)), unit=num(1))
             return Unk('hstack', node)
         return NotImplemented
 
